@@ -9,7 +9,7 @@
     DESIGN.md. *)
 From FV Require Import Base.Bytes Codec.Value Codec.Dec Proofs.DecTotal.
 From FV Require Import Conn.Lifecycle Proofs.LifecycleProofs Session.SessLife Auth.SaslListener Proofs.SaslProofs.
-From FV Require Import Frame.AmqpFrame Proofs.AmqpFrameProofs.
+From FV Require Import Frame.AmqpFrame Proofs.AmqpFrameProofs Conn.WireEvents Proofs.WireEventsProofs.
 Open Scope N_scope.
 
 (** whatever bytes a frame body holds, decoding them returns a value or an error - never a panic,
@@ -55,3 +55,30 @@ Theorem C15_malformed_frame_header_is_an_error :
   (forall fuel bs, (length bs < 4)%nat -> exists e, dec_frame fuel bs = Err e).
 Proof. exact (conj header_rules short_frame_refused). Qed.
 Print Assumptions C15_malformed_frame_header_is_an_error.
+
+(** ** whatever bytes a frame holds, an open connection reacts in one of four defined ways
+
+    [on_frame_bytes] (Conn/WireEvents.v) composes the frame decoder model with the connection
+    lifecycle model: the bytes after the size field are decoded; a frame that decodes is classified
+    as the engine's on_incoming does for a connection without sessions; a frame that does not decode
+    is a transport error, on which the engine stops at once.  For EVERY byte string: the connection
+    stays open and writes nothing (heartbeat), or writes exactly one close with an error and discards
+    from then on, or answers the peer's close and stops, or stops without writing.  (Run against the
+    real engine on raw frames every run: the `pw` events of the c12 sub.) *)
+Theorem C15_any_frame_on_open_connection :
+  forall fuel bs,
+    let r := on_frame_bytes fuel Lifecycle.SOpened bs in
+    (r = (Lifecycle.SOpened, [])) \/
+    (exists k, r = (Lifecycle.SDiscardProto k Lifecycle.WHandle, [Lifecycle.WCloseErr k])) \/
+    (exists e, r = (Lifecycle.SEnded (Lifecycle.RErr e) Lifecycle.HLive, [Lifecycle.WClose; Lifecycle.WEof]) /\ (e = Lifecycle.KRemoteClosed \/ e = Lifecycle.KRemoteClosedWithError)) \/
+    (r = (Lifecycle.SEnded (Lifecycle.RErr Lifecycle.KTransportError) Lifecycle.HLive, [Lifecycle.WEof])).
+Proof. exact any_frame_on_open_connection. Qed.
+Print Assumptions C15_any_frame_on_open_connection.
+
+(** ... and once it has closed with an error, nothing more is written whatever else arrives *)
+Theorem C15_after_an_illegal_frame_nothing_is_written :
+  forall fuel k bs,
+    let r := on_frame_bytes fuel (Lifecycle.SDiscardProto k Lifecycle.WHandle) bs in
+    snd r = [] \/ snd r = [Lifecycle.WEof].
+Proof. exact after_an_illegal_frame_nothing_is_written. Qed.
+Print Assumptions C15_after_an_illegal_frame_nothing_is_written.
